@@ -379,9 +379,17 @@ func main() {
 			"violation_signatures": keysOf(seen),
 		},
 	}
-	os.MkdirAll(filepath.Join(verif, "evidence"), 0o755)
+	// Evidence describes /repo itself. A run against another tree (VERIF_REPO: mutants, seeded changes) writes its
+	// report next to the committed evidence, never over it.
+	evdir := filepath.Join(verif, "evidence")
+	if os.Getenv("VERIF_EVIDENCE_DIR") != "" {
+		evdir = os.Getenv("VERIF_EVIDENCE_DIR")
+	} else if gorun.Repo() != "/repo" {
+		evdir = filepath.Join(verif, "evidence-other")
+	}
+	os.MkdirAll(evdir, 0o755)
 	b, _ := json.MarshalIndent(ev, "", " ")
-	if err := os.WriteFile(filepath.Join(verif, "evidence", id+".json"), append(b, '\n'), 0o644); err != nil {
+	if err := os.WriteFile(filepath.Join(evdir, id+".json"), append(b, '\n'), 0o644); err != nil {
 		fail2("writing evidence: %v", err)
 	}
 	fmt.Printf("%s %s: evaluations=%d distinct_nontrivial=%d known=%d violations=%d wall=%.1fs\n", id, tier,
